@@ -380,4 +380,29 @@ def callbackIn (emailOK : Bytes → Bool) (pre : List CEv) (i : CbIn) : CbOut :=
   oauthCallback emailOK { i with csrfCookie := jarOf pre }
 
 
+/-! ### the proxy's half of sign-out (oauthproxy.go `SignOut`, providers/sso.go `GetSignOutURL`, `signRedirectURL`) -/
+
+/-- what both services feed the MAC: the raw redirect URI followed by the decimal Unix timestamp
+    (`h.Write([]byte(rawRedirect)); h.Write([]byte(fmt.Sprint(timestamp.Unix())))` on both sides) -/
+def macInput (uri : String) (ts : Int) : String := uri ++ toString ts
+
+/-- the link the proxy sends the browser to -/
+structure SignOutLink where
+  redirectURI : String     -- query parameter `redirect_uri`
+  ts : Int                 -- query parameter `ts`
+  signedOver : String      -- what `sig` is the MAC of, under the proxy's client secret
+  deriving Repr, DecidableEq
+
+/-- `OAuthProxy.SignOut`: clear the session cookie, then redirect to the provider's sign-out URL with the return address
+    `scheme://<request Host>/` signed together with the current time. `cleared` is the cookie effect. -/
+def proxySignOut (secureCookies : Bool) (host : String) (now : Int) : Bool × SignOutLink :=
+  let uri := (if secureCookies then "https" else "http") ++ "://" ++ host ++ "/"
+  (true, { redirectURI := uri, ts := now, signedOver := macInput uri now })
+
+/-- the authenticator's view of that link: `macEqual` holds exactly when it recomputes the MAC over the same bytes under the
+    same secret (HMAC itself is trusted) -/
+def sigInOfLink (proxySecret authSecret : String) (l : SignOutLink) (uriParses : Bool) : SigIn :=
+  { uri := l.redirectURI, sig := "mac", ts := toString l.ts, uriParses := uriParses, sigDecodes := true,
+    tsValue := some l.ts, macEqual := decide (proxySecret = authSecret) && decide (l.signedOver = macInput l.redirectURI l.ts) }
+
 end Sso.AuthN
